@@ -22,6 +22,7 @@ def step (line : String) : String :=
   | "extconv" :: t :: u :: rest => extconvLine t u rest
   | "exteq" :: t :: u :: rest => exteqLine t u rest
   | "c20" :: kind :: t :: rest => c20Line kind t rest
+  | "c20s" :: kind :: t :: rest => c20Line kind t (("k=" ++ t ++ ":2") :: rest.filter (fun x => !(x.startsWith "k=")))
   | "view" :: kind :: ty :: rest => viewLine kind ty rest
   | "v14" :: kind :: ty :: rest => v14Line kind ty rest
   | "arr" :: kind :: _ :: rest => arrLine kind rest
